@@ -136,6 +136,15 @@ class LeaseCheckingCrawler(ShareCrawler):
         # the keys individually
         for k in so_far:
             self.state["cycle-to-date"].setdefault(k, so_far[k])
+        # the state file holds the JSON form of the histogram, a list of
+        # [minage, maxage, count]; in memory it is a dict keyed by
+        # (minage, maxage)
+        lah = self.state["cycle-to-date"]["lease-age-histogram"]
+        if isinstance(lah, list):
+            self.state["cycle-to-date"]["lease-age-histogram"] = {
+                (minage, maxage): count
+                for (minage, maxage, count) in lah
+            }
 
     def create_empty_cycle_dict(self):
         recovered = self.create_empty_recovered_dict()
